@@ -187,6 +187,8 @@ class LocV:
     def sym_store(self, ev, idx, v, t, mod):
         rows, col = self._col(ev, idx, t, mod)
         if isinstance(rows, LoopIdx) or (isinstance(rows, SliceV) and rows.lo is None and rows.hi is None):
+            if getattr(v, "name", None) in ("numpy.nan", "math.nan", "numpy.NaN"):
+                v = sp.Symbol("NOT_A_NUMBER")           # a column of placeholders: whatever reads it before it is overwritten gets NaN
             self.df.cols[col] = as_sym(v)
             return
         raise ev.err("unsupported row selection in .loc store", t, mod)
